@@ -727,10 +727,13 @@ func genRaw(r *vlib.Rand, w *wcfg, st *state) *request {
 			copy(c.id[:], r.Bytes(32))
 			c.vout = uint32(r.Intn(3))
 			q.RawMissing = true
-		case x < 6 && len(unlisted) > 0:
+		case (x < 6 || len(listed) == 0) && len(unlisted) > 0:
 			c = unlisted[r.Intn(len(unlisted))]
-		default:
+		case len(listed) > 0:
 			c = listed[r.Intn(len(listed))]
+		default:
+			copy(c.id[:], r.Bytes(32))
+			q.RawMissing = true
 		}
 		k := fmt.Sprintf("%x:%d", c.id, c.vout)
 		if used[k] {
